@@ -282,7 +282,7 @@ impl CheckDef for Sp {
 }
 
 pub fn run(ctx: &mut Ctx) {
-    ctx.rule("SP: disciplined scripted peer sends data with generated inter-arrival gaps (1,5,39,40,41,100,1000 ms, idle 5-120 s), sizes, orders (in order, gap, gap fill, duplicate), FIN; reader schedules incl. stopped-then-drain; the endpoint may write (piggy-backed ACKs). Oracle from wire timestamps: every accepted in-order packet acked within 40 ms (+1 ms timer granularity); acked at the same virtual instant when out of order / gap fill / duplicate / in-sequence FIN / >= 2*mss unacknowledged; window re-opening coincides with its cause; idle silence. non-trivial = >=1 delayed and >=1 immediate ACK; distinct by hash of (emission ms mod 64, ack) sequence");
+    ctx.rule("SP: disciplined scripted peer sends data with generated inter-arrival gaps (1,5,39,40,41,100,1000 ms, idle 5-120 s), sizes, orders (in order, gap, gap fill, duplicate), FIN and its retransmission, early shutdown of the endpoint's own direction; reader schedules incl. stopped-then-drain; the endpoint may write (piggy-backed ACKs). Oracle from wire timestamps: every accepted in-order packet acked within 40 ms (+1 ms timer granularity); acked at the same virtual instant when out of order / gap fill / duplicate / in-sequence FIN / >= 2*mss unacknowledged; window re-opening coincides with its cause; idle silence. non-trivial = >=1 delayed and >=1 immediate ACK; distinct by hash of (emission ms mod 64, ack) sequence");
     ctx.assume("same-instant = equal virtual timestamps (tasks run to quiescence before the paused clock advances)");
     ctx.replay_corpus::<Sp>();
     ctx.run_generated::<Sp>(ctx.tier.pick(60_000, 2_500_000));
